@@ -71,7 +71,7 @@ structure Report where
 /-- `TifaCore.locate`: `Location(node.lineno + self.line_offset, …)`. -/
 def locate (offset : Nat) (i : RawIssue) : Issue := ⟨i.label, i.nodeLine + offset⟩
 
-def strRaised : Exc := ⟨"<raised by str(error)>", true, false⟩
+def strRaised : Exc := ⟨"raised-by-str-of-error", true, false⟩
 
 /-- `Tifa.process_code(code)`: `.error e` = the exception `e` ESCAPES the call. -/
 def processCode (inner : Code → Inner) (offset : Nat) (code : Code) : Except Exc (Analysis × List Fb) :=
